@@ -250,6 +250,25 @@ impl PoolMap {
         let mut removed_ids = vec![id.to_owned()];
         removed_ids.extend(self.calc_descendants(id));
 
+        // the ancestors that stay in the pool lose every removed entry as a descendant; this has
+        // to happen before the links are dropped below, afterwards the ancestors cannot be found
+        let removed_set: HashSet<ProposalShortId> = removed_ids.iter().cloned().collect();
+        for removed_id in &removed_ids {
+            if let Some(removed) = self.get(removed_id).cloned() {
+                let surviving_ancestors: Vec<ProposalShortId> = self
+                    .calc_ancestors(removed_id)
+                    .difference(&removed_set)
+                    .cloned()
+                    .collect();
+                for anc_id in &surviving_ancestors {
+                    self.entries.modify_by_id(anc_id, |e| {
+                        e.inner.sub_descendant_weight(&removed);
+                        e.evict_key = e.inner.as_evict_key();
+                    });
+                }
+            }
+        }
+
         // update links state for remove, so that we won't update_descendants_index_key in remove_entry
         for id in &removed_ids {
             self.remove_entry_links(id);
